@@ -171,7 +171,7 @@ def replay_file(d):
     repo = os.environ.get('PYTOUGH_REPO', '/repo')
     path = os.path.join(repo, d['file'])
     raw = cc.read_lines(path)
-    lines = c6.apply_substitutions(raw, d.get('substitutions') or {})
+    lines = c6.apply_substitutions(c6.derive(raw, d.get('derive')), d.get('substitutions') or {})
     fam = cc.family_of(lines)
     skip = list(d.get('skip_tables') or [])
     nsub = sum(len(v) for v in (d.get('substitutions') or {}).values())
@@ -180,7 +180,7 @@ def replay_file(d):
         p2 = os.path.join(tmp, os.path.basename(path))
         with open(p2, 'wb') as fh: fh.write(''.join(lines).encode('latin-1'))
         head = '%s (%d characters substituted%s), clause %s, actions %s: ' % (
-            d['file'], nsub, ', skip_tables=%r' % skip if skip else '', d.get('clause'),
+            d['file'] + (' derived ' + d['derive'] if d.get('derive') else ''), nsub, ', skip_tables=%r' % skip if skip else '', d.get('clause'),
             ' > '.join('%s%s' % (a[0], '' if a[1] == 'history' or a[2] is None else '=%r' % (a[2],)) for a in d['actions'][-4:]))
         sets = c6.scan_sets(lines, fam)
         fullk = [i for i, s in enumerate(sets) if not s['short']]
